@@ -35,6 +35,9 @@ CHECKS['C13'] = dict(text='One inductive step of Ar.Next from an arbitrary 64-bi
 CHECKS['C15'] = dict(text='One step of Ar.Next from an arbitrary offset with arbitrary bytes in each header column (all 256 values at small widths, a restricted alphabet at full width) and short reads is executed symbolically: no panic outcome, a returned member implies both magic bytes, a non-negative size, a reader of exactly that size and progress of at least 60 bytes (hence at most len/60 steps); whole-archive iteration over short arbitrary inputs checks the step bound and repeatability.',
              note='Trusted: go/ssa, interpreter, z3. The decompressors and archive/tar on hostile streams are outside the claim (as in the statement).',
              ref='DESIGN.md 2/C15')
+CHECKS['C17'] = dict(text='Changelogs generated from an entry-list model (symbolic leaves) are executed symbolically through the real Parse/ParseOne (bufio from SSA, real version.Parse): the result must be exactly the model entries (source, version, distributions, options, verbatim body, maintainer, instant). For every truncation offset of each changelog the outcome must be an error or exactly the entries wholly inside the prefix with nothing but blank lines after them - never fewer without an error.',
+             note='Trusted: go/ssa, interpreter, z3. time.Parse is an uninterpreted function of (layout, text) that is assumed to accept the three well-formed dates used and to reject text shorter than the fixed-width RFC1123Z layout; that it reads dates correctly is stdlib territory.',
+             ref='DESIGN.md 2/C17')
 NA = {}
 props = [json.loads(l) for l in open(os.path.join(V, 'properties.jsonl'))]
 checks = []
